@@ -33,7 +33,9 @@ import (
 type z12Scenario struct {
 	Name  string `json:"name"`
 	Prior string `json:"prior"` // empty, pulled (model v1 + bystander sharing its first layer), created (local GGUF model "base" + copy "keep")
-	Op    string `json:"op"`    // pull, create-files, create-from, copy-fresh, copy-over, delete, delete-shared
+	Op    string `json:"op"`    // pull, create-files, create-from, copy-fresh, copy-over, delete, delete-shared, upload-create
+	// NoPrune: the server runs with OLLAMA_NOPRUNE=1 (the start-up repair does not remove unreferenced blobs)
+	NoPrune bool `json:"noprune,omitempty"`
 }
 
 // ---- HTTP through the real router -------------------------------------------------------
@@ -165,6 +167,25 @@ func ztManifestKey(raw string) string {
 	return string(b)
 }
 
+// referenced: the snapshot without the blob files no manifest names (what a server that runs with OLLAMA_NOPRUNE
+// keeps after an interrupted operation and an uninterrupted run does not have)
+func (s ztSnap) referenced() ztSnap {
+	out := ztSnap{Manifests: s.Manifests, Blobs: map[string]string{}}
+	for _, raw := range s.Manifests {
+		var m ztManifest
+		if json.Unmarshal([]byte(raw), &m) != nil {
+			continue
+		}
+		for _, l := range m.all() {
+			file := strings.Replace(l.Digest, ":", "-", 1)
+			if h, ok := s.Blobs[file]; ok {
+				out.Blobs[file] = h
+			}
+		}
+	}
+	return out
+}
+
 func (s ztSnap) semantic() string {
 	var names []string
 	for n := range s.Manifests {
@@ -238,6 +259,23 @@ func (w *z12World) run(op string) (ok bool, detail string) {
 		code, body := ztCall(w.h, "POST", "/api/create", api.CreateRequest{Model: "new", Files: map[string]string{"m.gguf": w.gguf}, System: "sys one", Stream: &stream})
 		mcrt.WaitIdle(false)
 		return code == 200, fmt.Sprintf("%d %s", code, strings.TrimSpace(body))
+	case "upload-create":
+		// what the CLI does: ask whether the server has the file, upload it through the blob handler if not, create
+		stream := false
+		data := append([]byte{}, ztGGUFBlob()...)
+		data[len(data)-1] ^= 0x0f // (a model file the prior state does not hold)
+		d := fmt.Sprintf("sha256:%x", sha256.Sum256(data))
+		if code, _ := ztCall(w.h, "HEAD", "/api/blobs/"+d, nil); code != 200 {
+			req := httptest.NewRequest("POST", "/api/blobs/"+d, bytes.NewReader(data))
+			rec := &ztRecorder{ResponseRecorder: httptest.NewRecorder()}
+			w.h.ServeHTTP(rec, req)
+			if rec.Code/100 != 2 {
+				return false, fmt.Sprintf("upload: %d %s", rec.Code, strings.TrimSpace(rec.Body.String()))
+			}
+		}
+		code, body := ztCall(w.h, "POST", "/api/create", api.CreateRequest{Model: "new", Files: map[string]string{"m.gguf": d}, System: "sys one", Stream: &stream})
+		mcrt.WaitIdle(false)
+		return code == 200, fmt.Sprintf("%d %s", code, strings.TrimSpace(body))
 	case "create-from":
 		stream := false
 		code, body := ztCall(w.h, "POST", "/api/create", api.CreateRequest{Model: "derived", From: "base", System: "sys two", Stream: &stream})
@@ -278,7 +316,7 @@ func z12Involved(op string) []string {
 	switch op {
 	case "pull":
 		return []string{"reg.test/lib/model/tag"}
-	case "create-files":
+	case "create-files", "upload-create":
 		return []string{lib + "new/latest"}
 	case "create-from":
 		return []string{lib + "derived/latest"}
@@ -346,6 +384,9 @@ var z12Ref = map[string]string{}
 func z12Body(sc z12Scenario) func() {
 	return func() {
 		zw := ztNewWorld(nil)
+		if sc.NoPrune {
+			gos.Setenv("OLLAMA_NOPRUNE", "1") // (ztNewWorld clears it)
+		}
 		w := &z12World{ztWorld: zw, h: ztRouter()}
 		if !w.setupPrior(sc.Prior) {
 			return
@@ -395,6 +436,12 @@ func z12Body(sc z12Scenario) func() {
 			env.Frozen = !again
 			// repeat the operation
 			ok, detail := w.run(sc.Op)
+			if gos.Getenv("VERIF_DEBUG_DUMP") != "" {
+				if f, err := gos.OpenFile(gos.Getenv("VERIF_DEBUG_DUMP"), gos.O_APPEND|gos.O_CREATE|gos.O_WRONLY, 0o644); err == nil {
+					fmt.Fprintf(f, "C12-DEBUG %s crash %q: redo ok=%v %s\n", sc.Name, label, ok, detail)
+					f.Close()
+				}
+			}
 			if level != my {
 				return // a further crash ended this process too; the next one has taken over (and judged)
 			}
@@ -410,7 +457,11 @@ func z12Body(sc z12Scenario) func() {
 				return
 			}
 			env.Frozen = true
-			got := w.snapshot().semantic()
+			snap := w.snapshot()
+			if sc.NoPrune {
+				snap = snap.referenced()
+			}
+			got := snap.semantic()
 			if ref, have := z12Ref[sc.Name]; have && got != ref {
 				fail(fmt.Sprintf("redo-differs: after crash %s + restart + repeating the %s the store differs from an uninterrupted run:\n--- interrupted+redo\n%s\n--- uninterrupted\n%s", label, sc.Op, got, ref))
 			}
@@ -433,7 +484,11 @@ func z12Body(sc z12Scenario) func() {
 			return
 		}
 		w.checkResolvable(func(m string) { fail(m + " [no crash, after restart]") })
-		z12Ref[sc.Name] = w.snapshot().semantic()
+		if sc.NoPrune {
+			z12Ref[sc.Name] = w.snapshot().referenced().semantic()
+		} else {
+			z12Ref[sc.Name] = w.snapshot().semantic()
+		}
 	}
 }
 
@@ -448,6 +503,8 @@ func z12Scenarios(thorough bool) []z12Scenario {
 		{Name: "copy-over", Prior: "created", Op: "copy-over"},
 		{Name: "delete", Prior: "created", Op: "delete"},
 		{Name: "delete-shared", Prior: "created", Op: "delete-shared"},
+		{Name: "upload-create", Prior: "empty", Op: "upload-create"},
+		{Name: "upload-create-noprune", Prior: "empty", Op: "upload-create", NoPrune: true},
 	}
 	return l
 }
